@@ -59,7 +59,8 @@ class C15(XsProp):
         # stores that change only what `==` does not see (tags, the sign of zero), and other primitives with a recording branch
         for prog in ['10 var X X ^hex ! X X println X', '10 var X X 1 "k" insert-tag ! X X tags', '0.0 var z -0.0 ! z z', '5 var a a ! a a',
                      '[ 1 ] var v v 2 "t" insert-tag ! v v tags v', '1 var q 3 0 do q ^bin ! q loop q print',
-                     '1 2 3 rot rot swap drop', ': f local a a ^hex local a a ; 9 f print', '3 0 do I 1 == if break then I loop 7']:
+                     '1 2 3 rot rot swap drop', ': f 3 0 do I 10 * local x x loop ; f', ': h local x 3 0 do x I + local x loop x ; 10 h',
+                     ': g 2 0 do 2 0 do I J + local y y loop loop ; g', '[ 1 2 ] foreach I loop 3 0 do I loop', ': r local n n 0 > if n 1 - r then n ; 3 r', ': f local a a ^hex local a a ; 9 f print', '3 0 do I 1 == if break then I loop 7']:
             for (m, rec) in MODES:
                 cs.append(mode_case(hexsrc(prog), m, rec, '3000 - -'))
         # recorded finding D33: a user-defined immediate word runs at build time; `compile` hides the caller's stack from it, `eval` does not
